@@ -409,6 +409,9 @@ def sb2b(model):
                     act = 'READ'
                 elif 'defaults' in unparse(v):
                     act = 'DEFAULT'
+            elif isinstance(s, ast.For) and 'defaults' in unparse(s.iter) and any(
+                    isinstance(c, ast.Call) and T.call_name(c) in ('append', 'extend') for c in ast.walk(s)):
+                act = 'DEFAULT'         # the default tokens are copied one by one into the argument
             elif isinstance(s, ast.Expr) and any(isinstance(c, ast.Call) and T.call_name(c) == 'arg_buffer'
                                                  for c in ast.walk(s)):
                 act = 'READ'
@@ -633,8 +636,16 @@ def em5(model):
     for n in ast.walk(lp):
         if not isinstance(n, ast.Return):
             continue
+        def is_txt(x):
+            if unparse(x).endswith('.txt'):
+                return True
+            if isinstance(x, ast.Name):
+                vs = T.resolve_local(model, x)
+                return bool(vs) and all(v is not x and unparse(v).endswith('.txt') for v in vs)
+            return False
         found = any(t and isinstance(e, ast.Compare) and isinstance(e.ops[0], ast.Eq)
-                    and unparse(e.comparators[0]) == endname and unparse(e.left).endswith('.txt')
+                    and ((unparse(e.comparators[0]) == endname and is_txt(e.left))
+                         or (unparse(e.left) == endname and is_txt(e.comparators[0])))
                     for e, t in guards.facts(n))
         blk = n._parent
         seq = next((getattr(blk, fld) for fld in ('body', 'orelse') if n in getattr(blk, fld, [])), [])
@@ -1373,6 +1384,27 @@ def _lookahead_restores_lang(model):
                         and any('LanguageToken' in unparse(e) for e, t in guards.facts(n) if t):
                     coll = n.func.value.id
     if coll is None:
+        # the skipping loop may live in a helper that returns (token, language tokens it skipped)
+        for n in iter_scope(f.node):
+            if isinstance(n, ast.Assign) and len(n.targets) == 1 and isinstance(n.targets[0], ast.Tuple) \
+                    and isinstance(n.value, ast.Call):
+                rc = model.resolve_call(n.value)
+                if not (rc and rc[0] == 'func' and not isinstance(rc[1].node, ast.Lambda)):
+                    continue
+                g = rc[1]
+                if any(isinstance(c, ast.Call) and T.call_name(c) == 'skip_space' for c in iter_scope(g.node)):
+                    continue
+                for rt in T.func_returns(g):
+                    if isinstance(rt, ast.Tuple) and len(rt.elts) == len(n.targets[0].elts):
+                        for k, el in enumerate(rt.elts):
+                            vals = [el]
+                            if isinstance(el, ast.Name):
+                                vals = T.resolve_local(model, el)
+                            for v in vals:
+                                if isinstance(v, ast.ListComp) and any('LanguageToken' in unparse(c) for gg in v.generators for c in gg.ifs) \
+                                        and isinstance(n.targets[0].elts[k], ast.Name):
+                                    coll = n.targets[0].elts[k].id
+    if coll is None:
         return False
     need = 0
     have = 0
@@ -1416,8 +1448,7 @@ def lt1(model):
                    'is_space() accepts carry no state.  A LanguageToken does (it opens or closes a '
                    'language section for the splitter): it must not be skippable', floor=1)
     f = model.func('scanner.Buffer.is_space')
-    names = [unparse(x).split('.')[-1] for n in ast.walk(f.node) if isinstance(n, (ast.Tuple, ast.List, ast.Set))
-             for x in n.elts]
+    names = T.is_space_classes(model)
     if not names:
         r.undec(f.node, 'class list of is_space not recognised')
         r.instances = 1
@@ -1444,8 +1475,7 @@ def lt2(model):
                    'space behind a macro name with skip_space(): the token that closes a '
                    '\\foreignlanguage argument stands exactly there', floor=1)
     isp = model.func('scanner.Buffer.is_space')
-    accepts = any(unparse(x).endswith('LanguageToken') for n in ast.walk(isp.node)
-                  if isinstance(n, (ast.Tuple, ast.List, ast.Set)) for x in n.elts)
+    accepts = 'LanguageToken' in T.is_space_classes(model)
     f = model.func('parser.Parser.expand_macro')
     calls = [n for n in iter_scope(f.node) if isinstance(n, ast.Call) and T.call_name(n) == 'skip_space']
     if not accepts:
